@@ -51,3 +51,12 @@ func RegisterShaper(f any) { panic("vh stub") }
 
 // ForEach calls f (a func(*T)) on every value of type T reachable from p.
 func ForEach(p any, f any) { panic("vh stub") }
+
+// SigOK is ed25519 verification of a 32-byte message (ideal-signature model in the engine).
+func SigOK(pk [32]byte, msg [32]byte, sig [64]byte) bool { panic("vh stub") }
+
+// Sign returns the (unique, ideal) signature of msg under the key pair whose public key is pk.
+func Sign(pk [32]byte, msg [32]byte) [64]byte { panic("vh stub") }
+
+// Sha256 of a 32-byte preimage.
+func Sha256(pre [32]byte) [32]byte { panic("vh stub") }
